@@ -60,9 +60,13 @@ enum Op {
     /// point): documented as "all of them will be attempted to be re-opened; only the first error
     /// will be reported" - the other writer must be switched nevertheless
     ReopenFault,
+    /// externally rename the current file and create an empty file at its path (what logrotate
+    /// does with `create`): until reopen_output the writer keeps writing to the renamed file,
+    /// afterwards to the file that now is at the path
+    ExtRenameCreate,
 }
 fn alphabet() -> Vec<Op> {
-    vec![Op::W(5), Op::W(80), Op::F, Op::ExtRename, Op::ExtRemove, Op::Reopen, Op::ResetBase, Op::ResetDir, Op::ResetRot, Op::R, Op::ExtRenameX, Op::ReopenFault]
+    vec![Op::W(5), Op::W(80), Op::F, Op::ExtRename, Op::ExtRemove, Op::Reopen, Op::ResetBase, Op::ResetDir, Op::ResetRot, Op::R, Op::ExtRenameX, Op::ReopenFault, Op::ExtRenameCreate]
 }
 fn modes() -> Vec<ModeK> {
     vec![ModeK::Direct, ModeK::BufDont(64), ModeK::BufFlush(64, 3_600_000)]
@@ -293,7 +297,7 @@ fn run_word(mode: ModeK, rot: Option<NamingK>, append: bool, word: &[Op]) -> Res
                 }
             }
             Op::F => handle.flush(),
-            Op::ExtRename | Op::ExtRemove => {
+            Op::ExtRename | Op::ExtRemove | Op::ExtRenameCreate => {
                 // only meaningful when the file the writer writes to exists at its path
                 let Some(p) = m.cur_path.clone() else { continue };
                 if !exists(&p) {
@@ -303,7 +307,20 @@ fn run_word(mode: ModeK, rot: Option<NamingK>, append: bool, word: &[Op]) -> Res
                 if m.files[cur].path.as_deref() != Some(&p) {
                     continue;
                 }
-                if *op == Op::ExtRename {
+                if *op == Op::ExtRenameCreate {
+                    m.side += 1;
+                    let to = p.parent().unwrap().join(format!("moved_{}.txt", m.side));
+                    std::fs::rename(&p, &to).and_then(|()| std::fs::write(&p, b"")).map_err(|e| Fail {
+                        clause: "machinery",
+                        at: i,
+                        detail: e.to_string(),
+                    })?;
+                    m.files[cur].path = Some(to);
+                    m.files.push(PFile {
+                        path: Some(p.clone()),
+                        lines: Vec::new(),
+                    });
+                } else if *op == Op::ExtRename {
                     m.side += 1;
                     let to = p.parent().unwrap().join(format!("moved_{}.txt", m.side));
                     std::fs::rename(&p, &to).map_err(|e| Fail {
@@ -544,7 +561,7 @@ fn cause(mode: ModeK, rot: Option<NamingK>, append: bool, word: &[Op], at: usize
     let sw = word[..at.min(word.len())]
         .iter()
         .rev()
-        .find(|o| matches!(o, Op::Reopen | Op::ReopenFault | Op::ResetBase | Op::ResetDir | Op::ResetRot | Op::R | Op::ExtRename | Op::ExtRemove | Op::ExtRenameX))
+        .find(|o| matches!(o, Op::Reopen | Op::ReopenFault | Op::ResetBase | Op::ResetDir | Op::ResetRot | Op::R | Op::ExtRename | Op::ExtRemove | Op::ExtRenameX | Op::ExtRenameCreate))
         .map_or("-".to_string(), |o| format!("{o:?}"));
     format!("{sw}/{}/{}{}", super::c08::mode_class(mode), rot.map_or("no-rotation", |n| n.short()), if append { "" } else { "/no-append" })
 }
